@@ -342,11 +342,21 @@ func (o encOp) String() string {
 	panic("harness: unknown encoder op " + o.name)
 }
 
-// runEncProgram executes ops on a zero-filled buffer of the given capacity.
+// encFill cycles through the contents the caller's buffer holds before the encoder writes into it:
+// callers reuse buffers, so every byte the encoder claims must actually be written.
+var encFills = []byte{0x00, 0xAA, 0xFF}
+var encFillN int
+
+// runEncProgram executes ops on a buffer of the given capacity, pre-filled with one of encFills.
 func runEncProgram(capacity int, ops []encOp) (req, reply string, panicked bool, buf []byte, off int) {
+	fill := encFills[encFillN%len(encFills)]
+	encFillN++
 	buf = make([]byte, capacity)
+	for i := range buf {
+		buf[i] = fill
+	}
 	e := csproto.NewEncoder(buf)
-	rq := []string{fmt.Sprintf("E %d", capacity)}
+	rq := []string{fmt.Sprintf("E %d %d", capacity, fill)}
 	var sts []string
 	for _, op := range ops {
 		rq = append(rq, op.String())
